@@ -10,6 +10,7 @@ import (
 	"path/filepath"
 	"strings"
 	"testing"
+	"time"
 
 	"github.com/TimothyStiles/poly/io/uniprot"
 
@@ -481,6 +482,7 @@ func (c20) Run(t *testing.T, tape *core.Tape, rcx *RunCtx) *core.Result {
 	var gotE []uniprot.Entry
 	var gotX []error
 	closedE, closedX := false, false
+	stallCount := 0
 	recvAfterEnd := 0
 	started := true
 	var readErr error
@@ -551,11 +553,16 @@ func (c20) Run(t *testing.T, tape *core.Tape, rcx *RunCtx) *core.Result {
 		// consumers are real goroutines blocking in real receives, each receive preceded by
 		// a yield: sequential = one goroutine draining entries until closed and then errors
 		// (the documented usage); concurrent = one goroutine per channel
+		stalls := tape.Chance(30) // the consumers also stall in (fake) time
 		recvEntries := func() {
 			for {
 				sim.Yield("consumer:before-entry-receive")
 				if ce == nil || !started {
 					return
+				}
+				if stalls && tape.Draw(5) == 4 {
+					time.Sleep([]time.Duration{time.Millisecond, 300 * time.Millisecond, 2 * time.Second, time.Minute, time.Hour}[tape.Draw(5)])
+					stallCount++
 				}
 				e, ok := <-ce
 				if !ok {
@@ -573,6 +580,10 @@ func (c20) Run(t *testing.T, tape *core.Tape, rcx *RunCtx) *core.Result {
 				sim.Yield("consumer:before-error-receive")
 				if cx == nil || !started {
 					return
+				}
+				if stalls && tape.Draw(5) == 4 {
+					time.Sleep([]time.Duration{time.Millisecond, 300 * time.Millisecond, 2 * time.Second, time.Minute, time.Hour}[tape.Draw(5)])
+					stallCount++
 				}
 				e, ok := <-cx
 				if !ok {
@@ -629,6 +640,8 @@ func (c20) Run(t *testing.T, tape *core.Tape, rcx *RunCtx) *core.Result {
 	res.Nontrivial = sim.Multi > 0 || fault != "none"
 	res.ShapeKey = fmt.Sprintf("%s|k%d|gz%v|%s@%d|ce%d|cx%d|%s|%s", sc.Entry, len(entries), sc.Gzip, fault, faultAt, sc.CapEntries, sc.CapErrors, sc.Consumer[:3], sc.Reader)
 	res.Count("decisions_with_choice", int64(sim.Multi))
+	res.Count("fault_consumer_stall_in_simulated_time", int64(stallCount))
+	res.SimTimeNs = int64(sim.SimTime)
 	res.Count("probe_reference_class_"+sc.RefClass, 1)
 	if sweep {
 		res.Count("sweep_runs", 1)
